@@ -37,6 +37,13 @@ AliasesAt(o) == {s + o : s \in Structural}
 VT == 11   FF == 12   NEL == 133   NBSP == 160   BOM == 65279
 UniBlanks == {VT, FF, NEL, NBSP, 5760, 8192, 8201, 8203, 8232, 8233, 8239, 8287, 12288}
 
+\* ---- the ways into the parser (package parse): parse.Parse and parse.ParseWithInterners; the two-step form
+\* parse.New(name, cardinality).Parse(text) / parse.NewWithInterners(...).Parse(text); and Parse called again on a Tree that has
+\* parsed another text before ("Reparse").  The properties speak of parsing a text: what they require is required of the
+\* call, through whichever entry the text arrives, and refers to the text of that call.
+OtherEntries == <<"ParseWithInterners", "New.Parse", "NewWithInterners.Parse", "Reparse">>
+AllEntries == <<"Parse">> \o OtherEntries
+
 RECURSIVE SumWidth(_, _, _)
 SumWidth(t, a, b) == IF a > b THEN 0 ELSE Width(t[a]) + SumWidth(t, a + 1, b)
 \* byte offset of the character at index i (1-based) = bytes before it
